@@ -5,6 +5,7 @@ package main
 import (
 	"encoding/json"
 	"fmt"
+	"math/big"
 	"os"
 	"sort"
 	"strings"
@@ -103,10 +104,56 @@ func numOf(o object.Object) (float64, bool) {
 	return 0, false
 }
 
+// min / max / between over integers beyond what TLC's 32-bit arithmetic holds: the oracle is math/big
+// (trusted); the numbers are written as literals, a negative one as a negated literal
+func bigMinMax(c *Check) {
+	vals := []string{"9223372036854775807", "9223372036854775806", "4611686018427387904", "9007199254740993", "2147483648", "1", "0"}
+	var all []*big.Int
+	for _, v := range vals {
+		b, _ := new(big.Int).SetString(v, 10)
+		all = append(all, b)
+		if v != "0" {
+			all = append(all, new(big.Int).Neg(b))
+		}
+	}
+	lit := func(b *big.Int) string {
+		if b.Sign() < 0 {
+			return "(-" + new(big.Int).Neg(b).String() + ")"
+		}
+		return b.String()
+	}
+	for _, a := range all {
+		for _, b := range all {
+			mn, mx := a, b
+			if a.Cmp(b) > 0 {
+				mn, mx = b, a
+			}
+			// between(a, b, 0) and between(0, a, b) against <=
+			zero := new(big.Int)
+			btw1 := b.Cmp(a) <= 0 && a.Cmp(zero) <= 0
+			btw2 := a.Cmp(zero) <= 0 && zero.Cmp(b) <= 0
+			src := fmt.Sprintf("return [min(%s, %s), max(%s, %s), between(%s, %s, 0), between(0, %s, %s), %s <= %s];", lit(a), lit(b), lit(a), lit(b), lit(a), lit(b), lit(a), lit(b), lit(a), lit(b))
+			want := fmt.Sprintf("ARRAY \"[%s, %s, %v, %v, %v]\"", mn, mx, btw1, btw2, a.Cmp(b) <= 0)
+			c.count("bigminmax|"+src, true)
+			for _, opt := range []bool{true, false} {
+				m, err := newMachine(src, nil, nil, opt, nil)
+				if err != nil {
+					c.disagree(&Disagreement{Kind: "prepare-failed", Script: src, Expected: want, Got: err.Error()})
+					break
+				}
+				if got := m.exec(nil).class(); got != want {
+					c.disagree(&Disagreement{Kind: "value", Script: src, Mode: map[bool]string{true: "opt", false: "noopt"}[opt], Expected: want, Got: got})
+				}
+			}
+		}
+	}
+}
+
 func checkC17(c *Check) {
-	c.rule = "MC_Builtins: min/max over all ordered pairs and between over (quick: a third of) all triples of 17 numbers (negative, multi-digit, mixed int/float, equal values of different type); split and join(split(s,d),d) over 12 strings x 7 separators (empty, multi-byte, multi-character) (thorough: also every string of length 0-4 over a, comma and space); sort/reverse over 11 arrays (mixed types, numbers whose numeric and printed orders differ, case variants) with no flag / true / false and the input re-read; join of each array; len lower upper trim string int float type keys over the 50 corpus values and 12 strings; int float string len over 15 numeric spellings with leading zeros, base prefixes and separators; 25 built-ins with 0..4 arguments of every type (wrong counts and types; thorough: every 4-tuple of the 8 types); hour minute seconds day month year weekday for 26 instants (thorough: plus 1200 instants sweeping 1936-2037) in UTC from a civil-calendar computation in the specification, and for 5 zones (incl. DST and a 30-minute offset) against the host time library, the zone being changed between calls inside one process; TLC checks the laws min/max vs <, between vs <=, join(split)=s, sort is an ordered permutation, wrong counts never fail; distinct = distinct script"
+	c.rule = "MC_Builtins: min/max over all ordered pairs and between over (quick: a third of) all triples of 17 numbers (negative, multi-digit, mixed int/float, equal values of different type); min / max / between / <= over all ordered pairs of 13 integers up to 2^63-1 in magnitude (oracle: math/big); split and join(split(s,d),d) over 12 strings x 7 separators (empty, multi-byte, multi-character) (thorough: also every string of length 0-4 over a, comma and space); sort/reverse over 11 arrays (mixed types, numbers whose numeric and printed orders differ, case variants) with no flag / true / false and the input re-read; join of each array; len lower upper trim string int float type keys over the 50 corpus values and 12 strings; int float string len over 15 numeric spellings with leading zeros, base prefixes and separators; 25 built-ins with 0..4 arguments of every type (wrong counts and types; thorough: every 4-tuple of the 8 types); hour minute seconds day month year weekday for 26 instants (thorough: plus 1200 instants sweeping 1936-2037) in UTC from a civil-calendar computation in the specification, and for 5 zones (incl. DST and a 30-minute offset) against the host time library, the zone being changed between calls inside one process; TLC checks the laws min/max vs <, between vs <=, join(split)=s, sort is an ordered permutation, wrong counts never fail; distinct = distinct script"
 	c.assumptions = []string{"sort may order by printed form or numerically when all elements are numbers", "printf/sprintf formatting, getenv, now are not constrained", "time-zone database of the host"}
 	_ = os.Unsetenv("TZ")
+	bigMinMax(c)
 	runRows(c, "MC_Builtins", stdCfg(c.Tier, "LawsMinMax", "LawsBetween", "LawsJoinSplit", "LawsSort", "NoFailure"), func(row *Row) {
 		if row.K == "sort" {
 			replayProgRow(c, row, progOpts{})
